@@ -64,3 +64,23 @@ claim("C10",
       "removes the interleaving point instead of exploring schedules; with it the pairing is schedule-independent by construction.",
       "Trusts tokio mpsc/oneshot delivering the value sent, immutability of a read Key value, rustc MIR + extractor.",
       "DESIGN.md §5 C10")
+
+claim("C14",
+      "mutation inventory (resolved callees, field writes) + provenance of rebuilt request/response + identity-mapper allow-list",
+      "Decides only necessary structural conditions of transparency: this repository's own code touches the forwarded request only by "
+      "inserting the three proxy-owned headers and rebuilds it from the original head and collected body; the response is rebuilt from "
+      "the upstream head with only the marker header inserted and no status mutation; the per-byte frame mapper is an identity; every "
+      "upstream send happens under the per-connection mutex on the one upstream connection. Byte-for-byte transparency through hyper, "
+      "framing, chunking, sizes and pipelining are runtime properties and are NOT decided.",
+      "Trusts hyper/http-body-util codec behaviour (not analysed), rustc MIR + extractor.",
+      "DESIGN.md §5 C14")
+
+claim("C15",
+      "evaluated constants + path-restricted provenance of the chosen limit layer + collect-before-send dominance",
+      "Decides that the 100 KiB / 100 MiB constants are what the layers are built from, that the per-request service picks LARGE exactly "
+      "on the true edge of should_skip_sig and LOW otherwise and wraps the handler (whose body type is Limited<Incoming>), and that on "
+      "both routes every upstream send is dominated by a successful collect() of the limited body while the failing outcome answers "
+      "400 and reaches no send: no part of an over-limit body can be relayed.",
+      "Trusts tower_http::limit::RequestBodyLimitLayer / Limited semantics (413 on declared length, error after limit bytes read; "
+      "exactly-the-limit passes) – boundary behaviour is the library's.",
+      "DESIGN.md §5 C15")
